@@ -1054,4 +1054,330 @@ theorem sim_opMop {w : World} (hw : w.Good) (a : Args) : Sim (HS.opMop w.norm a)
     simp only [Option.map_some, hcode, apiMultiOp_norm _ hall, List.length_map]
     sim_walk
 
+/-! ### the exception set -/
+
+/-- **the lines on which a bit-packed map and an ordinary boolean map are told apart** (parsed
+    operation and arguments, in the world `w`; the same in two twin worlds, `asym_twin`):
+    * `info` of a boolean map (prints the kind);
+    * `pack` of a boolean map (already packed: a copy that drops the metadata; ordinary: converted,
+      refused unless the coverage pixels hold a multiple of 8 pixels);
+    * `deg`, `upg` of a boolean map (`NotImplementedError` on a bit-packed map), and `deg` with a
+      boolean weight map;
+    * `genhp ord=…` of a boolean map (goes through `degrade`);
+    * `dor` on a boolean file or with a boolean weight file (`NotImplementedError` on `BITPACK`);
+    * `nvalid path=str` of a boolean map (`__str__` of a bit-packed map does not count);
+    * `upd … vdtype=b1` on a boolean map (a boolean values array is a "Data-type mismatch" for a
+      bit-packed map). -/
+def asym (w : World) (op : String) (a : Args) : Bool :=
+  match op with
+  | "info" => srcBool w a
+  | "pack" => srcBool w a
+  | "upg" => srcBool w a
+  | "deg" => srcBool w a || weightBool w a
+  | "genhp" => srcBool w a && (a.nat? "ord").isSome
+  | "nvalid" => srcBool w a && a.get? "path" == some "str"
+  | "upd" => srcBool w a && a.get? "vdtype" == some "b1"
+  | "dor" => fileBool w (a.getD "f" "f") ||
+      (match a.get? "wf" with | some n => fileBool w n | none => false)
+  | _ => false
+
+/-- … on a protocol line -/
+def asymLine (w : World) (line : String) : Bool :=
+  match (line.trimAscii.toString.splitOn " ").filter (· != "") with
+  | [] => false
+  | op :: rest => if op.startsWith "p." then false else asym w op (parseArgs rest)
+
+theorem sim_stepArgs {w : World} (hw : w.Good) (op : String) (a : Args) (hex : asym w op a = false) :
+    Sim (HS.stepArgs w.norm op a) (HS.stepArgs w op a) := by
+  unfold HS.stepArgs
+  split
+  all_goals first
+    | exact sim_same w _
+    | (with_reducible first
+        | exact sim_opCfg a | exact sim_opMocread a | exact sim_opFromhp a | exact sim_opHpximplicit a
+        | exact sim_opHpxread a | exact sim_opRand a | exact sim_opDrop a | exact sim_opReset a
+        | exact sim_opCovread a
+        | exact sim_opUpdr hw a | exact sim_opSop hw a | exact sim_opAstype hw a | exact sim_opInv hw a
+        | exact sim_opBits hw a | exact sim_opChk hw a | exact sim_opCopy hw a | exact sim_opScov hw a
+        | exact sim_opMeta hw a | exact sim_opGetmeta hw a | exact sim_opWrite hw a | exact sim_opInterp hw a
+        | exact sim_opHpxwrite hw a | exact sim_opSet hw a | exact sim_opVals hw a | exact sim_opGet hw a
+        | exact sim_opValid hw a | exact sim_opCovmap hw a | exact sim_opVpsc hw a | exact sim_opFracdet hw a
+        | exact sim_opCovmask hw a | exact sim_opDump hw a | exact sim_opState hw a | exact sim_opBad hw a
+        | exact sim_opSingle hw a | exact sim_opMoc hw a | exact sim_opGeom hw a | exact sim_opMask hw a
+        | exact sim_opBop hw a | exact sim_opMop hw a | exact sim_opRead hw a | exact sim_opFitsraw hw a
+        | exact sim_opCat hw a)
+    | ((with_reducible refine sim_opInfo hw a ?_); exact hex)
+    | ((with_reducible refine sim_opPack hw a ?_); exact hex)
+    | ((with_reducible refine sim_opUpg hw a ?_); exact hex)
+    | ((with_reducible refine sim_opDeg hw a ?_); exact hex)
+    | ((with_reducible refine sim_opGenhp hw a ?_); exact hex)
+    | ((with_reducible refine sim_opNvalid hw a ?_); exact hex)
+    | ((with_reducible refine sim_opUpd hw a ?_); exact hex)
+    | ((with_reducible refine sim_opDor hw a ?_); exact hex)
+
+theorem sim_packed (w : World) (s : String) (pw : PackedWorld) :
+    Sim ({ w.norm with packed := pw }, s) ({ w with packed := pw }, s) :=
+  ⟨rfl, by show World.norm _ = World.norm _; simp only [World.norm, List.map_map, World.mk.injEq, and_true, true_and]
+           exact ⟨List.map_congr_left (fun e _ => by simp [MapObj.norm_norm]),
+             List.map_congr_left (fun e _ => by simp [FileObj.norm_norm])⟩⟩
+
+/-- **one protocol line commutes with the normalisation of the world**, outside the exception set -/
+theorem sim_step {w : World} (hw : w.Good) (line : String) (hex : asymLine w line = false) :
+    Sim (HS.step w.norm line) (HS.step w line) := by
+  unfold HS.step
+  unfold asymLine at hex
+  simp only
+  split
+  · exact sim_same w _
+  · rename_i op rest htoks
+    simp only [htoks] at hex
+    split
+    · exact sim_packed w _ _
+    · rename_i hp
+      simp only [hp, Bool.false_eq_true, if_false] at hex
+      exact sim_stepArgs hw op (parseArgs rest) hex
+
+/-! ### the exception set is the same in twin worlds -/
+
+theorem nameBool_norm (w : World) (n : String) : nameBool w.norm n = nameBool w n := by
+  unfold nameBool
+  rw [World.get?_norm]
+  cases w.get? n with
+  | none => rfl
+  | some m => exact Kind.isBool_norm m.kind
+
+theorem srcBool_norm (w : World) (a : Args) : srcBool w.norm a = srcBool w a := by
+  unfold srcBool
+  cases a.pos with
+  | nil => rfl
+  | cons n rest => exact nameBool_norm w n
+
+theorem weightBool_norm (w : World) (a : Args) : weightBool w.norm a = weightBool w a := by
+  unfold weightBool
+  cases a.get? "w" with
+  | none => rfl
+  | some n => exact nameBool_norm w n
+
+theorem fileBool_norm {w : World} (hw : w.Good) (n : String) : fileBool w.norm n = fileBool w n := by
+  unfold fileBool
+  rw [World.files_find_norm]
+  cases hf : (w.files.find? (·.1 == n)).map (·.2) with
+  | none => rfl
+  | some fo =>
+    have hfo := (hw.file_find hf).2
+    simp only [Option.map_some]
+    rcases fo.bitpack_cases hfo with hb | ⟨co, so, ar, p, fs, ww, md, fl, rfl⟩
+    · rw [FileObj.norm_of_not_bitpack hb]
+    · have e : ("i2" == "rec") = false := by decide
+      simp [FileObj.norm, fileKind, e, Kind.isBool]
+
+theorem asym_norm {w : World} (hw : w.Good) (op : String) (a : Args) : asym w.norm op a = asym w op a := by
+  unfold asym
+  split <;> simp only [srcBool_norm, weightBool_norm, fileBool_norm hw]
+
+theorem asymLine_norm {w : World} (hw : w.Good) (line : String) : asymLine w.norm line = asymLine w line := by
+  unfold asymLine
+  split
+  · rfl
+  · simp only [asym_norm hw]
+
+theorem asymLine_twin {w₁ w₂ : World} (h : w₁.Twin w₂) (g₁ : w₁.Good) (g₂ : w₂.Good) (line : String) :
+    asymLine w₁ line = asymLine w₂ line := by
+  rw [← asymLine_norm g₁, ← asymLine_norm g₂, World.twin_iff.1 h]
+
+/-! ### the simulation -/
+
+/-- **one step in twin worlds**: outside the exception set the same line gives the same answer
+    and twin worlds again -/
+theorem twin_step {w₁ w₂ : World} (h : w₁.Twin w₂) (g₁ : w₁.Good) (g₂ : w₂.Good) (line : String)
+    (hex : asymLine w₁ line = false) :
+    (HS.step w₁ line).2 = (HS.step w₂ line).2 ∧ (HS.step w₁ line).1.Twin (HS.step w₂ line).1 := by
+  have hex2 : asymLine w₂ line = false := by rw [← asymLine_twin h g₁ g₂]; exact hex
+  have s1 := sim_step g₁ line hex
+  have s2 := sim_step g₂ line hex2
+  rw [World.twin_iff.1 h] at s1
+  exact ⟨s1.1.symm.trans s2.1, World.twin_iff.2 (s1.2.symm.trans s2.2)⟩
+
+/-- run a history, collecting the answers -/
+def runObs (w : World) : List String → World × List String
+  | [] => (w, [])
+  | l :: ls => ((runObs (HS.step w l).1 ls).1, (HS.step w l).2 :: (runObs (HS.step w l).1 ls).2)
+
+/-- no line of the history falls in the exception set (each judged in the world it is run in) -/
+def twinSafe (w : World) : List String → Bool
+  | [] => true
+  | l :: ls => !asymLine w l && twinSafe (HS.step w l).1 ls
+
+/-- **any history in twin worlds**: if no line falls in the exception set, the two runs give the
+    same list of answers and end in twin worlds -/
+theorem twin_history {w₁ w₂ : World} (h : w₁.Twin w₂) (g₁ : w₁.Good) (g₂ : w₂.Good) (lines : List String)
+    (hs : twinSafe w₁ lines = true) :
+    (runObs w₁ lines).2 = (runObs w₂ lines).2 ∧ (runObs w₁ lines).1.Twin (runObs w₂ lines).1 := by
+  induction lines generalizing w₁ w₂ with
+  | nil => exact ⟨rfl, h⟩
+  | cons l ls ih =>
+    simp only [twinSafe, Bool.and_eq_true, Bool.not_eq_true'] at hs
+    obtain ⟨ho, ht⟩ := twin_step h g₁ g₂ l hs.1
+    obtain ⟨io, it⟩ := ih ht (Good.step g₁ l) (Good.step g₂ l) hs.2
+    exact ⟨by simp only [runObs, ho, io], it⟩
+
+theorem runObs_world (w : World) (lines : List String) :
+    (runObs w lines).1 = lines.foldl (fun w l => (HS.step w l).1) w := by
+  induction lines generalizing w with
+  | nil => rfl
+  | cons l ls ih => simp only [runObs, List.foldl_cons, ih]
+
+/-! ### creation: `cfg … kind=packed` against `cfg … kind=plain dtype=b1` -/
+
+/-- **when `make_empty` builds a bit-packed map**: exactly when it builds the ordinary boolean map
+    with the same arguments, the coverage pixels hold a multiple of 8 pixels, and the sentinel is
+    `False`; the two maps are then the same up to the kind -/
+theorem apiMakeEmpty_packed_iff (co so : Nat) (sent : Option Val) (cp : List Nat) (m : MapObj) :
+    apiMakeEmpty co so .packed sent cp = .ok m ↔
+      (cfgOf co so).nfine % 8 = 0 ∧ ∃ m', apiMakeEmpty co so (.plain .bool) sent cp = .ok m' ∧
+        m'.sent = .bool false ∧ m = { m' with kind := .packed } := by
+  unfold apiMakeEmpty
+  simp only [bind, Except.bind, pure, Except.pure, throw, throwThe, MonadExceptOf.throw]
+  split
+  · simp
+  · split
+    · simp
+    · cases hcs : checkSentinel .bool sent with
+      | error e => simp
+      | ok s =>
+        have hb := WFApi.checkSentinel_bool hcs rfl
+        obtain ⟨x, rfl⟩ := Val.isBoolVal_iff.1 hb
+        simp only []
+        by_cases h8 : (cfgOf co so).nfine % 8 = 0
+        · cases x with
+          | false =>
+            simp [h8]
+            constructor
+            · rintro rfl; rfl
+            · intro h; rw [h]; rfl
+          | true => simp [h8]
+        · simp [h8]
+
+theorem World.Twin.bind {w₁ w₂ : World} (h : w₁.Twin w₂) (n : String) {m₁ m₂ : MapObj} (hm : m₁.Twin m₂) :
+    (w₁.bind n m₁).Twin (w₂.bind n m₂) := by
+  rw [World.twin_iff] at h ⊢
+  rw [World.bind_norm, World.bind_norm, h, MapObj.twin_iff.1 hm]
+
+/-- the two creation lines, run in twin worlds where both succeed, give twin worlds -/
+theorem cfg_twin {w₁ w₂ : World} (h : w₁.Twin w₂) (n : String) {co so : Nat} {sent : Option Val}
+    {cp : List Nat} {m₁ m₂ : MapObj} (h₁ : apiMakeEmpty co so .packed sent cp = .ok m₁)
+    (h₂ : apiMakeEmpty co so (.plain .bool) sent cp = .ok m₂) :
+    m₁.Twin m₂ ∧ (w₁.bind n m₁).Twin (w₂.bind n m₂) := by
+  obtain ⟨_, m', hm', hs, rfl⟩ := (apiMakeEmpty_packed_iff co so sent cp m₁).1 h₁
+  rw [h₂] at hm'
+  cases hm'
+  have hk : m₂.kind = .plain .bool := (WFApi.apiMakeEmpty_ok h₂).2.2.2.1
+  have ht : MapObj.Twin { m₂ with kind := .packed } m₂ :=
+    ⟨rfl, rfl, .inr ⟨.inl rfl, .inr hk⟩, rfl, rfl, rfl, rfl⟩
+  exact ⟨ht, h.bind n ht⟩
+
+/-! ### non-vacuity and the exception witnesses (evaluated by the compiler: the kernel cannot run
+the string parser) -/
+
+/-- an empty boolean storage at orders (0, 2): 12 coverage pixels of 16 pixels -/
+def exEmpty : State Val := makeEmpty (cfgOf 0 2) ⟨.bool false, fun v => v != .bool false⟩ []
+
+/-- two twin worlds: `a` bit-packed and `b` ordinary in the first, the other way round in the second -/
+def exW₁ : World := (({} : World).bind "a" (pkd 0 2 exEmpty none none)).bind "b" (bln 0 2 exEmpty none none)
+def exW₂ : World := (({} : World).bind "a" (bln 0 2 exEmpty none none)).bind "b" (pkd 0 2 exEmpty none none)
+
+theorem exW_twin : exW₁.Twin exW₂ := World.twin_iff.2 rfl
+
+theorem exW_good : exW₁.Good ∧ exW₂.Good := by
+  have hp : (pkd 0 2 exEmpty none none).Ok := by decide +kernel
+  have hb : (bln 0 2 exEmpty none none).Ok := by decide +kernel
+  exact ⟨(World.good_empty.bind "a" hp).bind "b" hb, (World.good_empty.bind "a" hb).bind "b" hp⟩
+
+/-- the same worlds as the protocol creates them -/
+def exSetup₁ : List String := ["cfg a kind=packed covord=0 spord=2", "cfg b kind=plain dtype=b1 covord=0 spord=2"]
+def exSetup₂ : List String := ["cfg a kind=plain dtype=b1 covord=0 spord=2", "cfg b kind=packed covord=0 spord=2"]
+
+#guard (runLines exSetup₁).pool.map (fun e => (e.1, e.2.kind)) == exW₁.pool.map (fun e => (e.1, e.2.kind))
+#guard (runLines exSetup₂).pool.map (fun e => (e.1, e.2.kind)) == exW₂.pool.map (fun e => (e.1, e.2.kind))
+
+/-- a history mixing bit-packed and ordinary operands: updates by pixels and by ranges (with
+    growth), boolean algebra in place and copying (with growth), inversion, counting (cached and
+    not), listing, masking an integer map, conversion, union, files (write, read, concatenate),
+    sub-maps, fracdet, MOC and HEALPix interchange, degrade of a NON-boolean map -/
+def exCommon : List String := [
+  "upd a pix=5,100 val=T",
+  "updr b ranges=16:40 val=T path=slice",
+  "bop a op=or rhs=b inplace=1",
+  "bop b op=and rhs=a r=c",
+  "inv c r=d",
+  "nvalid a", "nvalid d", "nvalid a", "valid a", "valid c",
+  "cfg i kind=plain dtype=i4 covord=0 spord=2",
+  "upd i pix=3,7,20 vals=4,5,6",
+  "deg i ord=1 red=sum r=di", "valid di",
+  "mask i by=a r=im", "valid im",
+  "astype a dtype=i2 r=ai", "valid ai", "info ai",
+  "mop maps=a,b name=ufunc_union ufunc=bitwise_or filler=F r=mo", "valid mo",
+  "write a f=fa", "write b f=fb", "read f=fa r=ra", "valid ra", "covread f=fa",
+  "cat files=fa,fb f=fc check=1 or=1", "read f=fc r=rc", "valid rc",
+  "scov a k=0 r=sa", "valid sa", "fracdet a r=fd ord=1", "get a pix=5,6", "copy a r=ca", "nvalid ca",
+  "moc a f=m1", "mocread f=m1 covord=0 r=mr", "valid mr", "genhp a", "hpxwrite a f=h1",
+  "hpxread f=h1 covord=0 r=hr", "valid hr"]
+
+#guard twinSafe exW₁ exCommon
+#guard (runObs exW₁ exCommon).2 == (runObs exW₂ exCommon).2
+#guard (runObs (runLines exSetup₁) exCommon).2 == (runObs (runLines exSetup₂) exCommon).2
+#guard (runObs exW₁ exCommon).2.take 10 ==
+  ["ok", "ok", "ok", "ok", "ok", "26", "40", "26",
+   "5,16,17,18,19,20,21,22,23,24,25,26,27,28,29,30,31,32,33,34,35,36,37,38,39,100",
+   "16,17,18,19,20,21,22,23,24,25,26,27,28,29,30,31,32,33,34,35,36,37,38,39"]
+#guard !(runObs exW₁ exCommon).2.any (fun s => s.startsWith "err" || s.startsWith "bad-op")
+
+/-- the theorem applied: whenever the executable check passes, the two runs agree -/
+example (hs : twinSafe exW₁ exCommon = true) :
+    (runObs exW₁ exCommon).2 = (runObs exW₂ exCommon).2 ∧ (runObs exW₁ exCommon).1.Twin (runObs exW₂ exCommon).1 :=
+  twin_history exW_twin exW_good.1 exW_good.2 exCommon hs
+
+/-- the answer of one line after a setup history -/
+def answerAfter (setup : List String) (line : String) : String := (HS.step (runLines setup) line).2
+
+/-- a line is flagged by `asymLine` in the world reached by a setup history -/
+def flagged (setup : List String) (line : String) : Bool := asymLine (runLines setup) line
+
+/-! every class of the exception set is a genuine difference (first answer: `a` bit-packed,
+second: `a` ordinary), and is flagged -/
+
+-- `info`: the kind is printed
+#guard answerAfter exSetup₁ "info a" == "kind=packed covord=0 spord=2 sentinel=F" &&
+  answerAfter exSetup₂ "info a" == "kind=plain:b1 covord=0 spord=2 sentinel=F" && flagged exSetup₁ "info a"
+-- `pack`: a bit-packed source is copied WITHOUT its metadata, an ordinary one converted with it
+#guard (runObs (runLines exSetup₁) ["meta a k=x v=1", "pack a r=p", "getmeta p k=x"]).2 == ["ok", "ok", "none"] &&
+  (runObs (runLines exSetup₂) ["meta a k=x v=1", "pack a r=p", "getmeta p k=x"]).2 == ["ok", "ok", "1"] &&
+  flagged exSetup₁ "pack a r=p"
+-- `degrade`, `upgrade`, `generate_healpix_map(nside=…)`: NotImplementedError on a bit-packed map
+#guard answerAfter exSetup₁ "deg a ord=1 red=max" == "err NotImplementedError" &&
+  answerAfter exSetup₂ "deg a ord=1 red=max" == "ok" && flagged exSetup₁ "deg a ord=1 red=max"
+#guard answerAfter exSetup₁ "upg a ord=3" == "err NotImplementedError" &&
+  answerAfter exSetup₂ "upg a ord=3" == "ok" && flagged exSetup₁ "upg a ord=3"
+#guard answerAfter (exSetup₁ ++ ["upd a pix=5 val=T"]) "genhp a ord=1 red=max" == "err NotImplementedError" &&
+  (answerAfter (exSetup₂ ++ ["upd a pix=5 val=T"]) "genhp a ord=1 red=max").startsWith "-1637499999999999923489519697920,1," &&
+  flagged exSetup₁ "genhp a ord=1 red=max"
+-- degrade-on-read of a `BITPACK` file
+#guard answerAfter (exSetup₁ ++ ["upd a pix=5 val=T", "write a f=fa"]) "dor f=fa ord=1 red=max" == "err NotImplementedError" &&
+  answerAfter (exSetup₂ ++ ["upd a pix=5 val=T", "write a f=fa"]) "dor f=fa ord=1 red=max" == "ok" &&
+  flagged (exSetup₁ ++ ["write a f=fa"]) "dor f=fa ord=1 red=max"
+-- `__str__` of a bit-packed map does not count the valid pixels
+#guard answerAfter exSetup₁ "nvalid a path=str" == "nocount" && answerAfter exSetup₂ "nvalid a path=str" == "0" &&
+  flagged exSetup₁ "nvalid a path=str"
+-- a boolean values array is a "Data-type mismatch" for a bit-packed map
+#guard answerAfter exSetup₁ "upd a pix=6 val=T vdtype=b1" == "err ValueError" &&
+  answerAfter exSetup₂ "upd a pix=6 val=T vdtype=b1" == "ok" && flagged exSetup₁ "upd a pix=6 val=T vdtype=b1"
+-- creation: a bit-packed map needs a multiple of 8 pixels per coverage pixel and refuses sentinel `True`
+#guard answerAfter [] "cfg q kind=packed covord=0 spord=1" == "err ValueError" &&
+  answerAfter [] "cfg q kind=plain dtype=b1 covord=0 spord=1" == "ok" &&
+  answerAfter [] "cfg q kind=packed covord=0 spord=2 sentinel=T" == "err NotImplementedError" &&
+  answerAfter [] "cfg q kind=plain dtype=b1 covord=0 spord=2 sentinel=T" == "ok"
+-- NOT exceptions (proved symmetric, here evaluated): `astype`, the union operations, `write` / `read`
+#guard !flagged exSetup₁ "astype a dtype=i2 r=x" && !flagged exSetup₁ "mop maps=a,b name=ufunc_union ufunc=bitwise_or filler=F r=x" &&
+  !flagged exSetup₁ "write a f=f" && !flagged exSetup₁ "bop a op=xor rhs=b r=x" && !flagged exSetup₁ "nvalid a"
+
 end HS
